@@ -111,6 +111,11 @@ CHECKS = {
             'Per run TLC decides: returned count, continuous features in [0,1], categorical indices valid, padded dimensions zero, reward[i] = table score of the cell of feature[i] (lookup done by TLC), '
             'result = top-count of all evaluated rewards, not worse than the best prior (needle at the prior point), same seed => identical run.',
             'Sampled configurations (36 of 2 688 in quick); score functions piecewise constant so candidates are discrete; smooth functions and lbfgsb_optimizer out of scope. Known finding F15 listed.'),
+    'C20': (EX, '5 C20', 'Experimenter.tla: TLC enumerates every valid wrapper stacking (shift, sign flip, noise, discretise, permute, normalise, hashing-infeasible) of depth <= 2 (thorough 3) over three synthetic bases '
+            'with validity side conditions; each term evaluated on points of its own search space together with its inner experimenter at the mapped point; TLC judges protocol and laws on order keys',
+            'Protocol for every term (COMPLETED with the metrics of the problem statement or INFEASIBLE; parameters untouched incl. Python type; problem_statement() by value) and the law of the outermost wrapper '
+            '(pointwise equality within 1e-9 for shift / sign flip / discretise / infeasible, order preservation for normalise, involution and flipped goals for sign flip, reproducible seeded noise, bijection for permute).',
+            'The mapped point is computed by the driver from the wrapper arguments; noisy inner experimenters are judged on the protocol only. BBOB functions broken by the image numpy (Rastrigin, ...) replaced by working ones.'),
 }
 
 PENDING = {
